@@ -524,7 +524,7 @@ def pl_result(descs, evs, wpos, n, batched):
     return tuple(vals) if len(vals) != 1 else vals[0]
 
 
-def same(got, exp, nmeas):
+def same(got, exp, nmeas, tol=1e-8):
     g = list(got) if nmeas != 1 and isinstance(got, (tuple, list)) else [got]
     e = list(exp) if nmeas != 1 else [exp]
     if nmeas != 1 and (not isinstance(got, (tuple, list)) or len(g) != len(e)):
@@ -536,9 +536,28 @@ def same(got, exp, nmeas):
             return False, "result-structure", i
         b = np.asarray(b, dtype=complex)
         if a.shape != b.shape:
-            if a.size == b.size and np.allclose(a.reshape(-1), b.reshape(-1), atol=1e-8, rtol=0):
+            if a.size == b.size and np.allclose(a.reshape(-1), b.reshape(-1), atol=tol, rtol=0):
                 return False, "result-shape", i
             return False, "result-value", i
-        if not np.allclose(a, b, atol=1e-8, rtol=0):
+        if not np.allclose(a, b, atol=tol, rtol=0):
             return False, "result-value", i
     return True, "", 0
+
+
+def validate_traces(pid, module, traces, M, chunk=1500):
+    """run a trace spec over the records in chunks; -> ({1-based index: (clause, index)}, {"distinct", "generated"})"""
+    verd, tot = {}, {"distinct": 0, "generated": 0}
+    for off in range(0, len(traces), chunk):
+        part = traces[off:off + chunk]
+        wd = lib.workdir(pid, f"trace_{off}")
+        (wd / "traces.json").write_text(json.dumps(part))
+        r = lib.run_tlc(module, lib.cfg(constants={"M": M, "NTRACES": len(part)}), wd, env={"TRACE_FILE": str(wd / "traces.json")})
+        lib.require_ok(r, f"{module}@{off}")
+        for t in r.tuples:
+            if t[0] == "V":
+                verd[off + t[1]] = (t[2], t[3])
+        tot["distinct"] += r.distinct
+        tot["generated"] += r.generated
+    if len(verd) != len(traces):
+        raise lib.MachineryError(f"verdicts are not total: {len(verd)} of {len(traces)}")
+    return verd, tot
